@@ -33,6 +33,7 @@ import Scico.Proofs.StepsOpial2
 import Scico.Proofs.StepsExamples2
 import Scico.Proofs.StepsPDHGAlpha
 import Scico.Proofs.StepsOpial3
+import Scico.Proofs.StepsOpial4
 
 set_option linter.unusedSectionVars false
 
@@ -587,6 +588,40 @@ theorem C03_padmm_converges_findim [FiniteDimensional ℝ X] [FiniteDimensional 
         (iter (padmmSpecStep p) k s).zOld, (iter (padmmSpecStep p) k s).u)) Filter.atTop (nhds wb) :=
   padmm_converges_findim H hk s
 
+/-- ADMM itself: `N` constraints, relaxation `0 < α < 2`, MERELY convex problem, finite-dimensional variables, any x-solver
+    that returns the (unique) stationary point of the x-sub-problem and depends continuously on `(z, u)`.  If a KKT point
+    exists, then from EVERY start (any `x`, any lists `z = List.ofFn zf`, `u = List.ofFn uf` of length `N`) the point returned
+    by `minimizer()` converges to the `x*` of a KKT point, and the Douglas–Rachford variables `z_i^k + u_i^k` (`σseq`) converge
+    to `C_i x* + u_i*`.  (Opial's argument on `Fin N → Z` with `W` as the Fejér metric.) -/
+theorem C03_admm_converges_findim [FiniteDimensional ℝ X] [FiniteDimensional ℝ Z] {cons : List (Con X Z)} {alpha : ℝ}
+    {solveX : List Z → List Z → X → X} {F : Fn X} {x0 : X} {rlo rhi : ℝ}
+    (H : ADMMConvHyp cons alpha solveX F x0 rlo rhi) (hk : ∃ xs us, IsAKKT cons F xs us) (f : Option (X → ℝ))
+    (us0 zf uf : Fin cons.length → Z) (x : X) (zo : List Z) :
+    ∃ (xs : X) (us : Fin cons.length → Z) (σseq : ℕ → Fin cons.length → Z), IsAKKT cons F xs us ∧
+      (∀ k, (iter (admmSpecStep (admmOfCons f alpha solveX cons)) (k + 1)
+              { x := x, z := List.ofFn zf, zOld := zo, u := List.ofFn uf }).z = List.ofFn (Pz cons (σseq k)) ∧
+            (iter (admmSpecStep (admmOfCons f alpha solveX cons)) (k + 1)
+              { x := x, z := List.ofFn zf, zOld := zo, u := List.ofFn uf }).u
+              = List.ofFn (fun i => σseq k i - Pz cons (σseq k) i)) ∧
+      Filter.Tendsto σseq Filter.atTop (nhds (fun i => (cons.get i).C xs + us i)) ∧
+      Filter.Tendsto (fun k => admmMinimizer (iter (admmSpecStep (admmOfCons f alpha solveX cons)) k
+          { x := x, z := List.ofFn zf, zOld := zo, u := List.ofFn uf })) Filter.atTop (nhds xs) := by
+  obtain ⟨xs, us, σseq, hkk, hrows, hσ, hx⟩ := admm_converges_findim H hk us0 zf uf x zo
+  have hstate : (⟨rowsOf cons us0 zf uf, x, zo⟩ : RS X Z).state = { x := x, z := List.ofFn zf, zOld := zo, u := List.ofFn uf } := by
+    unfold RS.state
+    simp only [rowsOf_z, rowsOf_u]
+  have hit := fun k => (RS.iter_eq alpha f solveX cons k ⟨rowsOf cons us0 zf uf, x, zo⟩ (rowsOf_c cons us0 zf uf)).1
+  simp only [hstate] at hit
+  refine ⟨xs, us, σseq, hkk, fun k => ?_, hσ, ?_⟩
+  · rw [hit (k + 1)]
+    unfold RS.state
+    simp only [hrows k]
+    unfold rowsσ
+    exact ⟨rowsOf_z cons _ _ _, rowsOf_u cons _ _ _⟩
+  · refine hx.congr (fun k => ?_)
+    rw [hit k]
+    rfl
+
 /-- PDHG with ANY extrapolation parameter `alpha` (documented range `[0,1]`), linear `C`: the Fejér inequality of
     `C03_pdhg_fejer` holds up to the explicit defect `2(1−α)⟪z⁺ − z*, C(x − x⁺)⟫`, which vanishes for `alpha = 1` -/
 theorem C03_pdhg_alpha_defect (p : PDHGParams ℝ X Z) (F : Fn X) (xs : X) (zs : Z) (H : PDHGHypA p F xs zs)
@@ -678,6 +713,9 @@ example [FiniteDimensional ℝ X] (y0 : X) :
 example [FiniteDimensional ℝ X] (y0 : X) :
     PADMMConvHyp (exPADMM2 y0) (halfSq y0) zeroFn 1 1 ∧ IsPKKT (exPADMM2 y0) (halfSq y0) zeroFn (y0, y0, y0, 0) :=
   ⟨exPADMM2_conv y0, exPADMM2_kkt y0⟩
+example [FiniteDimensional ℝ X] (y0 x0 : X) :
+    ADMMConvHyp [idCon 1, idCon 2] (3 / 2) (exSolveX y0 [idCon 1, idCon 2]) (halfSq y0) x0 1 2 ∧
+    IsAKKT ([idCon 1, idCon 2] : List (Con X X)) (halfSq y0) y0 (fun _ => 0) := ⟨exADMM_conv y0 x0, exADMM_kkt y0⟩
 -- strong convexity on the instances: `∂(½‖·−y0‖²)` is 1-strongly monotone; function form for FISTA
 example (y0 : X) : StrongSub (halfSq y0) 1 := halfSq_strong y0
 example (y0 : X) : GradStrongConvex (exPGM y0).f (exPGM y0).gradf 1 := by
